@@ -209,7 +209,7 @@ func H12_syn() {
 // H13_synmerge: merged thesauri hold exactly the surviving definitions under the new numbering.
 func H13_synmerge() {
 	emptyTerm := vParam("emptyTerm", 1) == 1
-	docs0, sp0 := vGenSynBatch("a", 1+vChoice("nSyn0", vParam("maxSyn", 1)), emptyTerm)
+	docs0, sp0 := vGenSynBatch("a", 1+vChoice("nSyn0", vParam("maxSyn0", vParam("maxSyn", 1))), emptyTerm)
 	docs1, sp1 := vGenSynBatch("b", 1+vChoice("nSyn1", vParam("maxSyn", 1)), emptyTerm)
 	usesEmpty := false
 	for _, sp := range []*sSynSpec{sp0, sp1} {
